@@ -152,8 +152,17 @@ ELEMENTWISE_1 = {
     "expit": lambda x: _sp().special.expit(x),
     "erf": lambda x: _sp().special.erf(x),
     "normal_cdf": lambda x: _sp().stats.norm.cdf(x),
+    "asin": np.arcsin, "acos": np.arccos,
+    "logistic": lambda x: _sp().special.expit(x),
+    "erfinv": lambda x: _sp().special.erfinv(x),
+    "erfc": lambda x: _sp().special.erfc(x),
+    "erfcinv": lambda x: _sp().special.erfcinv(x),
+    "normal_pdf": lambda x: _sp().stats.norm.pdf(x),
 }
 ELEMENTWISE_2 = {"round": np.round, "maximum": np.maximum, "minimum": np.minimum}
+
+QUANTILES = {"quantile": (0.0, 0.25, 0.5, 1.0), "nanquantile": (0.0, 0.25, 0.5, 1.0),
+             "percentile": (0, 10, 50, 100), "nanpercentile": (0, 10, 50, 100)}
 
 STATS = ("sum", "prod", "mean", "median", "std", "var", "max", "min",
          "nansum", "nanprod", "nanmean", "nanmedian", "nanstd", "nanvar", "nanmax", "nanmin")
@@ -171,6 +180,35 @@ CHANGES = {
     "pct": lambda x, y: 100 * (x / y - 1),
     "roc": lambda x, y: x / y,
 }
+
+# annualised changes over one period; a is the number of periods of the frequency in a year
+ACHANGES = {
+    "adiff": lambda a: (lambda x, y: a * (x - y)),
+    "adiff_log": lambda a: (lambda x, y: a * (np.log(x) - np.log(y))),
+    "apct": lambda a: (lambda x, y: 100 * ((x / y) ** a - 1)),
+    "aroc": lambda a: (lambda x, y: (x / y) ** a),
+}
+
+# conversions between measures of change, value by value (the documented meaning of each name)
+CONVERSIONS = {
+    "roc_from_pct": lambda a: (lambda x: 1 + x / 100),
+    "pct_from_roc": lambda a: (lambda x: 100 * (x - 1)),
+    "pct_from_apct": lambda a: (lambda x: 100 * ((1 + x / 100) ** (1 / a) - 1)),
+    "roc_from_apct": lambda a: (lambda x: (1 + x / 100) ** (1 / a)),
+    "roc_from_aroc": lambda a: (lambda x: x ** (1 / a)),
+}
+
+# cumulation: the inverse of the change of the same name, y_t = f(y_{t-k}, x_t), started from `initial`
+CUMULATIONS = {
+    "cum_diff": (lambda y, x: y + x, 0.0),
+    "cum_diff_log": (lambda y, x: y * np.exp(x), 0.0),
+    "cum_pct": (lambda y, x: y * (1 + x / 100), 1.0),
+    "cum_roc": (lambda y, x: y * x, 1.0),
+}
+
+
+def annual_factor(freq):
+    return {"Y": 1, "H": 2, "Q": 4, "M": 12, "D": 365, "I": 1, None: 1}[freq]
 
 
 # --------------------------------------------------------------------------------------------------
@@ -245,13 +283,24 @@ def t_rowwise(m: SM, func, nv=None, tol=0.0) -> Exp:
     return _from_rows(m, m.lo, a.reshape(m.n, nv), nv=nv, tol=tol)
 
 
-def t_stat(m: SM, name: str) -> Exp:
+def t_stat(m: SM, name: str, *args) -> Exp:
     f = getattr(np, name)
-    return t_rowwise(m, lambda a: f(a, axis=1).reshape(-1, 1), nv=1, tol=1e-9)
+    return t_rowwise(m, lambda a: f(a, *args, axis=1).reshape(-1, 1), nv=1, tol=1e-9)
 
 
-def t_moving(m: SM, name: str, window: int) -> Exp:
-    f = MOVING[name]
+GENERIC_WINDOW_FUNCS = {"max": np.max, "min": np.min, "nansum": np.nansum}
+
+
+def default_window(freq):
+    """documented default of the moving-window functions: one year of periods, four where a year has no meaning"""
+    v = cal.FREQ_VALUE.get(freq, 0) if freq is not None else 0
+    return -v if v > 0 else -4
+
+
+def t_moving(m: SM, name: str, window) -> Exp:
+    f = MOVING[name] if name in MOVING else GENERIC_WINDOW_FUNCS[name]
+    if window is None:
+        window = default_window(m.freq)
     w = -window
 
     def func(a):
@@ -374,6 +423,42 @@ def t_change(m: SM, name: str, shift) -> Exp:
     o = SM(m.freq, m.nv, e.cells)
     o.set_tight()
     return t_binop(m, o, CHANGES[name], tol=1e-9)
+
+
+def t_achange(m: SM, name: str) -> Exp:
+    e = t_shift_int(m, -1)
+    o = SM(m.freq, m.nv, e.cells)
+    o.set_tight()
+    return t_binop(m, o, ACHANGES[name](annual_factor(m.freq)), tol=1e-9)
+
+
+def t_convert(m: SM, name: str) -> Exp:
+    return t_rowwise(m, CONVERSIONS[name](annual_factor(m.freq)), tol=1e-9)
+
+
+def t_cum(m: SM, name: str, k: int, initial, a=None, b=None) -> Exp:
+    """forward cumulation over serials a..b (default: the reported span) with lag k"""
+    f, default = CUMULATIONS[name]
+    init = default if initial is None else float(initial)
+    a = m.lo if a is None else a
+    b = m.hi if b is None else b
+    y = {}
+    if b >= a:
+        for t in range(a - k, b + 1):
+            y[t] = np.full(m.nv, init)
+        for t in range(a, b + 1):
+            y[t] = f(y.get(t - k, np.full(m.nv, np.nan)), m.get(t))
+    return Exp(m.freq, m.nv, y, tol=1e-9)
+
+
+def t_redate(m: SM, new_start: int) -> Exp:
+    d = new_start - m.lo
+    return Exp(m.freq, m.nv, {k + d: v for k, v in m.cells.items()})
+
+
+def t_columns(m: SM, cols) -> Exp:
+    cols = list(cols)
+    return Exp(m.freq, len(cols), {k: v[cols] for k, v in m.cells.items()})
 
 
 def t_hstack(first: SM, others) -> Exp:
